@@ -10,7 +10,7 @@ ID = "C19"
 LEVEL = "exploration"
 RULE = ("row-level audit, by the reference decoder, of every stream written by the serializer workloads of both "
         "integrations (one case in five: 2-5 sinks through ONE stream) plus dedicated runs with tables larger than the vocabulary: (a) no entry row for a string resident "
-        "in that table (with big tables: every string sent exactly once), (b) no statement slot carrying a term equal to "
+        "in that table (and whenever a table, at its ADVERTISED size, can hold all distinct strings of the stream, every string is sent exactly once - incl. dedicated streams with 9-15 prefixes/datatypes under presets of 8-12 names and 16-64 prefixes/datatypes), (b) no statement slot carrying a term equal to "
         "the previous statement's term in that slot, (c) no explicit entry/name/prefix id where the zero form is "
         "equivalent, (d) GRAPHS streams written from a statement sequence never close and reopen the same graph for "
         "consecutive quads, (e) size <= naive one-entry-per-use encoding. Non-trivial: the stream offered >= 1 "
@@ -88,6 +88,21 @@ def audit_case(cfg: dict, stmts: list, ns: list):
             samples = [s for s in res.audit_samples if s["kind"] == kind][:3]
             out.append({"clause": kind, "count": a[kind], "audit_samples": T.to_json(samples),
                         "summary": f"{kind} x{a[kind]}: {samples[:1]}"})
+    # (a'): "with tables large enough for all distinct strings, each is sent exactly once" - judged per table against the
+    # size the stream's own options row ADVERTISES
+    frames = wire.dec_stream(data, cfg["delimited"])
+    for table, key in (("name", "max_name_table_size"), ("prefix", "max_prefix_table_size"), ("datatype", "max_datatype_table_size")):
+        sent: dict = {}
+        for fr in frames:
+            for row in fr["rows"]:
+                if row[0] == table:
+                    sent[row[1]["value"]] = sent.get(row[1]["value"], 0) + 1
+        size = res.options.get(key, 0)
+        if sent and len(sent) <= size and max(sent.values()) > 1:
+            twice = sorted(v for v, c in sent.items() if c > 1)
+            out.append({"clause": "entry-resent-although-table-holds-all-strings", "table": table, "distinct": len(sent), "table_size": size,
+                        "summary": f"{table} table of {size} entries (as advertised), {len(sent)} distinct strings in the stream, "
+                                   f"yet {len(twice)} of them were sent more than once, e.g. {twice[0][:60]!r} x{sent[twice[0]]}"})
     if not out and workloads.input_is_ordered(cfg):
         # (e) only for caller-defined sequences: an rdflib Dataset also carries (possibly empty) graphs
         # that are part of *its* input but not of the statement list the naive encoding is built from
@@ -149,8 +164,35 @@ def long_graphs_case(ctx, rng):
     ctx.case(("long-graphs", ctx.shard, n), res is not None, sample={"kind": "long GRAPHS stream", "quads": n})
 
 
+def wide_vocabulary_case(ctx, rng, k):
+    """More distinct prefixes (or datatypes) than NAMES the tables hold, all revisited, under a preset whose prefix /
+    datatype table is larger than its name table and large enough for all of them: each string goes out exactly once."""
+    npre = rng.randint(9, 15)
+    nss = [f"http://ex.org/wide/{j}/" for j in range(npre)]
+    dts = [f"http://ex.org/wide/dt{j}" for j in range(rng.randint(9, 14))]
+    integ = "generic" if k % 2 == 0 else "rdflib"
+    stmts = []
+    for _ in range(rng.randint(40, 120)):
+        o = ("lit", "v", None, rng.choice(dts)) if rng.random() < .5 else ("iri", rng.choice(nss) + rng.choice("ab"))
+        stmts.append((("iri", rng.choice(nss) + "a"), ("iri", rng.choice(nss) + "b"), o))
+    cfg = {"integration": integ, "physical": 1, "entry": rng.choice(["stream_frames_gen", "flat_frames", "flat_to_file"]),
+           "frame_size": rng.choice([5, 250]), "preset": (rng.choice([8, 8, 12]), rng.choice([16, 32, 64]), rng.choice([16, 32])),
+           "delimited": True, "logical": 1, "generalized": False, "rdf_star": False, "ns": False, "stream_name": ""}
+    ws, res = audit_case(cfg, stmts, [])
+    ctx.observe("wide-vocabulary-streams")
+    if res is not None:
+        ctx.observe("streams-audited")
+    for w in ws:
+        w.update({"cfg": cfg, "stmts": T.to_json(stmts), "ns": []})
+        ctx.violation(w)
+    ctx.case(("wide-vocabulary", sorted(cfg.items()), stmts), res is not None,
+             sample={"kind": "prefix/datatype vocabulary wider than the name table", "cfg": cfg, "prefixes": npre})
+
+
 def run_shard(ctx):
     long_graphs_case(ctx, ctx.rng("long-graphs"))
+    for k in range(6):
+        wide_vocabulary_case(ctx, ctx.rng("wide-vocab", k), k)
     i = 0
     while not ctx.out_of_time():
         rng = ctx.rng(i)
